@@ -187,6 +187,30 @@ def run(tier, seed):
             if real != model:
                 ck.disagree('parse_trace_data differs from model', rp | {'impl': real[:8], 'model': model[:8]})
         iod.check_optimised(ck, opt_calls, 'trace samples')
+        # ---- through the shipped I/O-drawer parser module (sub-type 84 of component 2C00): the "Trace" member is the stand-alone decoding of the
+        # same bytes with the drawer's string file -- also when an entry's data contains what looks like a buffer header
+        try:
+            from udparsers.m2c00 import m2c00
+            from io_drawer.drawer_type import DRAWER_TYPES
+            hdrlike = bytes([2, 32, 1, 0x42]) + b'IICS' + bytes(8)
+            for dt in DRAWER_TYPES:
+                sp_ = dt.get_trace_string_file_path()
+                for payload in (hdrlike, b'\0\0\0\0' + hdrlike, bytes(rng.randrange(256) for _ in range(24))):
+                    es_ = [(1, 1, 0x4644, 5, 6, payload, b''), (2, 2, 0x4654, 7, 8, b'abcd', b''), (3, 3, 0x4644, 9, 10, hdrlike + hdrlike, b'')]
+                    body_ = b''.join(enc_entry(e) for e in es_)
+                    data_ = bytes([2, 32, 1, 0x42]) + b'INFO'.ljust(12, b'\0') + bytes(4) + struct.pack('>III', 32 + len(body_), 0, 0) + body_
+                    want_ = tr.parse_trace_data(memoryview(data_), sp_)
+                    try:
+                        got_ = json.loads(m2c00.parseUDToJson(84, dt.user_data_version, memoryview(data_)))
+                    except Exception as e:  # noqa
+                        got_ = {'<raises>': type(e).__name__}
+                    ck.case(key=('m2c00-trace', dt.name, data_))
+                    ck.count('trace through udparsers.m2c00')
+                    if got_ != {'Trace': want_}:
+                        ck.fail('the trace shown by the I/O-drawer parser module is not the decoding of its bytes', {'op': 'm2c00-trace', 'drawer': dt.name, 'data_hex': data_.hex(),
+                                'actual': str(got_)[:300], 'expected': want_[:4]}, 'm2c00_trace')
+        except ImportError as e:
+            ck.skip('udparsers.m2c00 unavailable: %r' % e)
         # ---- a string file that is rewritten between two decodes in one process
         synth = [pth for nm, pth in loader_files if nm.startswith('synth') and os.path.exists(pth)]
         import struct as _st
